@@ -6,7 +6,7 @@
    correspondence run (identity ledger on both sides, clone at every step, every later order). *)
 From Coq Require Import ZArith List Bool Lia.
 From MV Require Import Ast Eval Scalar Machine.
-From MV.Proofs Require Import Arith Logic Prim View OpsLocal Guards Grow CapHistory Core Refine Clone Extend CloneSlice DrainIt IntoIt IntoClone SourceSpecs.
+From MV.Proofs Require Import Arith Logic Prim View OpsLocal Guards Grow CapHistory Core Refine Clone Extend CloneSlice DrainIt IntoIt IntoClone SourceSpecs FromSlice.
 From MV Require Import EquivDefs Prims EquivExtSlice.
 Close Scope string_scope.
 Import ListNotations.
@@ -157,3 +157,24 @@ Theorem C12_the_source_of_extend_from_slice_clones_each_element_once :
   end.
 Proof. exact SourceSpecs.extend_from_slice_source. Qed.
 Print Assumptions C12_the_source_of_extend_from_slice_clones_each_element_once.
+
+(* END TO END for `impl From<&[T]> for MiniVec<T>`: the regenerated body gives a NEW vector holding one
+   new element per source element, in order, each with its source's payload (T::clone ran once per
+   element); the sources and everything that existed before keep their state and payload *)
+Theorem C12_the_source_of_from_slice_is_a_deep_copy :
+  forall cfg ncap, cfg_ok cfg -> policy_ok ncap -> needs_drop cfg = true ->
+  forall s src F,
+  cloneable s src -> (List.length src <= F)%nat ->
+  match EquivExtSlice.run_from_slice cfg ncap (EquivDefs.FUEL + F) src s with
+  | (Norm r, s') =>
+      r = VObj (List.length (vecs s)) /\
+      vabs cfg s' (List.length (vecs s)) (zseq (next_elem s) (List.length src)) /\
+      next_elem s' = next_elem s + Z.of_nat (List.length src) /\
+      (forall e, e < next_elem s -> ledger s' e = ledger s e /\ payload s' e = payload s e) /\
+      (forall j, (j < List.length src)%nat -> payload s' (next_elem s + Z.of_nat j) = payload s (nth j src 0))
+  | (Panic, s') => forall e, e < next_elem s -> ledger s' e = ledger s e
+  | (Fail FAbort, _) | (Fail (FAllocAbort _ _), _) => True
+  | _ => False
+  end.
+Proof. exact from_slice_source. Qed.
+Print Assumptions C12_the_source_of_from_slice_is_a_deep_copy.
